@@ -2,6 +2,7 @@ package exogen
 
 import (
 	"fmt"
+	"regexp"
 	"strings"
 )
 
@@ -14,13 +15,102 @@ type cexpr struct {
 	T      *Ty
 	Params []string
 	Form   string
+	Alt    *cexpr // a near-variant of E (one leaf changed) that some branches use instead
+}
+
+// lit is a type that is only known by its source text.
+func litType(src string) *Ty {
+	t := &Ty{K: KStruct, Name: src, unit: -1, Opaque: true}
+	switch {
+	case strings.HasPrefix(src, "*"):
+		t.K = KPtr
+	case strings.HasPrefix(src, "chan"), strings.HasPrefix(src, "<-chan"):
+		t.K = KChan
+	case strings.HasPrefix(src, "["):
+		t.K = KArray
+	case strings.HasPrefix(src, "interface"):
+		t.K = KIface
+	case src == "int":
+		return tInt
+	case src == "string":
+		return tString
+	case src == "bool":
+		return tBool
+	}
+	return t
+}
+
+// typeVariants are pairs of comparable type literals that differ in one leaf.
+var typeVariants = [][2]string{
+	{"struct{ a int }", "struct{ a int `t:\"x\"` }"},
+	{"struct{ a int `t:\"x\"` }", "struct{ a int }"},
+	{"chan int", "chan string"},
+	{"[2]int", "[3]int"},
+	{"*[]int", "*[]string"},
+	{"interface{ M() }", "interface{ N() }"},
+	{"interface{ M(int) }", "interface{ M(string) }"},
+	{"*func(int)", "*func(string)"},
+	{"*func(int)", "*func(int) int"},
+	{"struct{ a int }", "struct{ a, b int }"},
+	{"*map[string]int", "*map[string]bool"},
+	{"*struct{ A int `json:\"a\"` }", "*struct{ A int `json:\"b\"` }"},
+	{"[1]struct{ a int }", "[1]struct{ a int `k:\"v\"` }"},
+	{"*[2]chan<- int", "*[2]<-chan int"},
+	{"struct{ int }", "struct{ string }"},
+	{"struct{ int }", "struct{ int `t:\"e\"` }"},
+	{"*[]struct{ a int }", "*[]struct{ a int `t:\"x\"` }"},
+	{"*int", "*string"},
+	{"[2]int", "[2]int"},
+	{"interface{ M() }", "interface{ M() }"},
+	{"*func(...int)", "*func([]int)"},
+	{"*struct{}", "*interface{}"},
+	{"<-chan int", "chan int"},
+	{"*[...]int", "*[1]int"},
+}
+
+// exprVariants are pairs of call-free expressions over the parameters of
+// exprVariantParams that differ in one leaf; both have the type in the third column.
+const exprVariantParams = "s []int, ss [][]int, m map[string]int, o struct{ a, b int; p *struct{ a, b int } }, p, q *int, i, j int, arr [4]int, g2 struct{ f exoBox[int] }"
+
+var exprVariants = [][3]string{
+	{"s[i]", "s[j]", "int"}, {"s[i]", "s[i+1]", "int"}, {"m[\"k\"]", "m[\"j\"]", "int"}, {"o.a", "o.b", "int"}, {"o.p.a", "o.p.b", "int"}, {"*p", "*q", "int"},
+	{"-i", "+i", "int"}, {"-i", "^i", "int"}, {"i + j", "i - j", "int"}, {"i + j", "j + i", "int"}, {"(i)", "i", "int"}, {"(i + j)", "((i + j))", "int"},
+	{"s[1:][0]", "s[:1][0]", "int"}, {"s[1:2][0]", "s[1:2:3][0]", "int"}, {"s[1:][0]", "s[i:][0]", "int"}, {"ss[i][j]", "ss[j][i]", "int"}, {"arr[1]", "arr[2]", "int"},
+	{"[2]int{1, 2}[i]", "[2]int{1, 3}[i]", "int"}, {"[2]int{1, 2}[i]", "[...]int{1, 2}[i]", "int"}, {"[]int{1: 2}[i]", "[]int{2: 2}[i]", "int"}, {"struct{ a int }{1}.a", "struct{ a int }{a: 1}.a", "int"},
+	{"map[string]int{\"a\": 1}[\"a\"]", "map[string]int{\"a\": 2}[\"a\"]", "int"}, {"(*o.p).a", "o.p.a", "int"}, {"*&i", "*&j", "int"}, {"p", "q", "*int"}, {"&o.a", "&o.b", "*int"},
+	{"g2.f.v", "(g2.f).v", "int"}, {"exoBox[int]{1}.v", "exoBox[int]{2}.v", "int"}, {"exoBox[int]{1}.v", "exoBox[int]{v: 1}.v", "int"}, {"s[len(s)-1]", "s[cap(s)-1]", "int"}, {"i << 1", "i >> 1", "int"}, {"i &^ j", "i & j", "int"},
+	{"(o.p == nil)", "(o.p != nil)", "bool"}, {"(i == j)", "(i != j)", "bool"}, {"!(i == j)", "(i == j)", "bool"},
 }
 
 var ifaceLits = []string{"interface{ M() }", "interface{ M(int) string }", "interface{ Error() string }", "interface{ M(); N() error }", "interface{ comparableM(func(int) bool) }", "interface{}", "interface{ M(...int) }", "interface{ M() (a, b int) }"}
 
 // complexExpr draws the expression that a chain compares again and again.
 func (g *gen) complexExpr() cexpr {
-	switch g.intn(0, 15, "cexpr") {
+	// type assertions with type literals and near-variants get half of the draws: they put
+	// the largest variety of type nodes into the compared expression
+	form := g.intn(0, 19, "cexpr")
+	if g.chance(40, "assertheavy") {
+		form = pick(g, "assertform", 0, 0, 1, 16, 17, 18)
+	}
+	switch form {
+	case 16, 17: // near-variant type assertions
+		v := typeVariants[g.intn(0, len(typeVariants)-1, "typevariant")]
+		wrap := pick(g, "variantwrap", "v.(%s)", "v.(%s)", "(v.(%s))", "v.([]%s)[0]", "*v.(*%s)", "v.(map[string]%s)[\"k\"]", "v.([1]%s)[0]")
+		if strings.Contains(v[0], "...") {
+			wrap = "*(v.(*%s))"
+			v = [2]string{"[1]int", "[2]int"}
+		}
+		t1, t2 := litType(v[0]), litType(v[1])
+		return cexpr{E: fmt.Sprintf(wrap, v[0]), T: t1, Params: []string{"v any"}, Form: "assert_type_variants",
+			Alt: &cexpr{E: fmt.Sprintf(wrap, v[1]), T: t2}}
+	case 18, 19: // near-variant call-free expressions
+		g.needExoHelpers()
+		v := exprVariants[g.intn(0, len(exprVariants)-1, "exprvariant")]
+		t := litType(v[2])
+		if g.flip("swap") {
+			v[0], v[1] = v[1], v[0]
+		}
+		return cexpr{E: v[0], T: t, Params: []string{exprVariantParams}, Form: "expr_variants", Alt: &cexpr{E: v[1], T: t}}
 	case 0: // type assertion to an interface literal
 		it := pick(g, "ifacelit", ifaceLits...)
 		t := &Ty{K: KIface, Name: it, unit: -1}
@@ -30,7 +120,10 @@ func (g *gen) complexExpr() cexpr {
 			chanOf(1, funcOf(nil, nil)), ptrTo(funcOf([]*Ty{tInt}, []*Ty{tBool})), ptrTo(mapOf(tString, sliceOf(tInt))), arrayOf(1, chanOf(2, tInt)))
 		return cexpr{E: "v.(" + g.ts(t) + ")", T: t, Params: []string{"v any"}, Form: "assert_type_literal"}
 	case 2: // type assertion to a declared type
-		t := g.namedType(func(t *Ty) bool { return t.comparable() && t.K != KTParam })
+		t := g.namedType(func(t *Ty) bool { return t.comparable() && t.K != KTParam }, 9)
+		if !t.comparable() {
+			t = tInt
+		}
 		return cexpr{E: "v.(" + g.ts(t) + ")", T: t, Params: []string{"v any"}, Form: "assert_named"}
 	case 3: // index
 		et := g.anyCmp(1)
@@ -102,7 +195,7 @@ func (g *gen) complexExpr() cexpr {
 		}
 		return cexpr{E: c[0], T: t, Params: []string{"w interface{ M(); N() }", "up unsafe.Pointer", "ch chan int", "sl []int", "st struct{ a int }"}, Form: "conversion_type_literal"}
 	case 9: // composite literal
-		c := pick(g, "complit", [2]string{"(struct{ a int }{1})", "struct{ a int }"}, [2]string{"([2]int{1, 2})", "[2]int"}, [2]string{"([...]string{\"a\"})", "[1]string"}, [2]string{"(struct{ f func() }{}).f == nil", "bool"},
+		c := pick(g, "complit", [2]string{"(struct{ a int }{1})", "struct{ a int }"}, [2]string{"([2]int{1, 2})", "[2]int"}, [2]string{"([...]string{\"a\"})", "[1]string"}, [2]string{"((struct{ f func() }{}).f == nil)", "bool"},
 			[2]string{"(struct{ a, b int }{a: 1})", "struct{ a, b int }"}, [2]string{"([1]struct{ a int }{{a: 1}})", "[1]struct{ a int }"}, [2]string{"(&struct{ a int }{1}).a", "int"}, [2]string{"map[string]int{\"a\": 1}[\"a\"]", "int"}, [2]string{"[]func() int{nil}[0]()", "int"})
 		t := &Ty{K: KStruct, Name: c[1], unit: -1}
 		switch {
@@ -125,7 +218,7 @@ func (g *gen) complexExpr() cexpr {
 	case 11: // method value / expression call
 		t := g.namedType(func(t *Ty) bool {
 			return len(t.Methods) > 0 && t.Under != nil && t.Under.K != KIface && !t.Generic && firstCmpMethod(t) != nil
-		})
+		}, 5, 9)
 		m := firstCmpMethod(t)
 		if m == nil {
 			return cexpr{E: "x", T: tInt, Params: []string{"x int"}, Form: "ident"}
@@ -149,14 +242,17 @@ func (g *gen) complexExpr() cexpr {
 		}
 		return cexpr{E: e, T: m.Results[0], Params: []string{"o " + pt}, Form: "method_call"}
 	case 12: // value of a declared type
-		t := g.namedType(func(t *Ty) bool { return t.comparable() && t.K != KTParam })
+		t := g.namedType(func(t *Ty) bool { return t.comparable() && t.K != KTParam }, 9)
+		if !t.comparable() {
+			t = tInt
+		}
 		return cexpr{E: pick(g, "namedval", "o", "(o)", "*&o"), T: t, Params: []string{"o " + g.ts(t)}, Form: "named_value"}
 	case 13: // slice of slices / key-value composite inside a call
 		return cexpr{E: pick(g, "kv", "len([]int{2: 1, 5: 2})", "len(map[[2]int]string{{1, 2}: \"a\"})", "len(struct{ s []int }{s: []int{1}}.s)", "cap([]chan<- int(nil))", "len(append([]int(nil), xs...))"), T: tInt, Params: []string{"xs []int"}, Form: "keyvalue_in_call"}
 	case 14: // function-typed values compared with nil only
 		return cexpr{E: pick(g, "fnil", "f", "(f)", "o.f", "fs[0]"), T: funcOf(nil, nil), Params: []string{"f func()", "o struct{ f func() }", "fs []func()"}, Form: "func_value"}
 	default: // package-level identifiers of std
-		c := pick(g, "stdval", [2]string{"os.Args[0]", "string"}, [2]string{"time.Now().Weekday()", "time.Weekday"}, [2]string{"http.MethodGet", "string"}, [2]string{"io.EOF", "error"}, [2]string{"os.Stdout", "*os.File"}, [2]string{"reflect.TypeOf(x).Kind()", "reflect.Kind"})
+		c := pick(g, "stdval", [2]string{"os.Args[0]", "string"}, [2]string{"time.Now().Weekday()", "time.Weekday"}, [2]string{"time.RFC3339", "string"}, [2]string{"io.EOF", "error"}, [2]string{"os.Stdout", "*os.File"}, [2]string{"reflect.TypeOf(x).Kind()", "reflect.Kind"})
 		t := &Ty{K: KInt, Name: c[1], unit: -1}
 		switch c[1] {
 		case "string":
@@ -180,9 +276,22 @@ func firstCmpMethod(t *Ty) *Meth {
 	return nil
 }
 
+var funcTypeRe = regexp.MustCompile(`interface\s*\{\s*[A-Za-z]|func\(`)
+
+// hasFuncType reports whether the expression (or its variant) contains a function type node.
+func hasFuncType(ce cexpr) bool {
+	if funcTypeRe.MatchString(ce.E) {
+		return true
+	}
+	for _, p := range ce.Params {
+		_ = p
+	}
+	return ce.Alt != nil && funcTypeRe.MatchString(ce.Alt.E)
+}
+
 // cmpValues returns n operands to compare an expression of type t with,
 // and the parameters they need. Constants are pairwise distinct.
-func (g *gen) cmpValues(t *Ty, n int) (vals []string, params []string) {
+func (g *gen) cmpValues(t *Ty, n int, prefix string) (vals []string, params []string) {
 	switch {
 	case t.unit == -1 && t.Name != "" && t.K == KInt && t != tInt && !isBasicName(t.Name): // std named integer types
 		for i := 0; i < n; i++ {
@@ -210,7 +319,7 @@ func (g *gen) cmpValues(t *Ty, n int) (vals []string, params []string) {
 			vals = append(vals, "nil")
 			continue
 		}
-		p := fmt.Sprintf("c%d", i)
+		p := fmt.Sprintf("%s%d", prefix, i)
 		params = append(params, p+" "+ts)
 		vals = append(vals, p)
 	}
@@ -234,21 +343,43 @@ var branchBodies = []string{"", "n++", "return n", "n--", "println(n)", "n += 2"
 func (g *gen) chainFunc() {
 	g.unit("chain", g.inTest(), func() string {
 		ce := g.complexExpr()
+		// recorded finding: astutil.Equal has no case for function types; excluded by comparing
+		// only expressions without a function type node (method of an interface literal, func type)
+		for i := 0; i < 20 && hasFuncType(ce) && !g.include("astutil-equal-func-type"); i++ {
+			ce = g.complexExpr()
+			if i == 19 {
+				ce = cexpr{E: "x", T: tInt, Params: []string{"x int"}, Form: "ident"}
+			}
+		}
 		g.feat("chain_" + ce.Form)
 		n := g.intn(2, 4, "nvals")
-		vals, vparams := g.cmpValues(ce.T, n)
+		vals, vparams := g.cmpValues(ce.T, n, "c")
+		var altVals []string
+		if ce.Alt != nil {
+			var ap []string
+			altVals, ap = g.cmpValues(ce.Alt.T, n, "d")
+			vparams = append(vparams, ap...)
+			g.feat("chain_near_variant")
+		}
 		constVals := len(vparams) == 0 && ce.T.kind() != KFunc
 		eq := func(i int) string {
 			v := vals[i]
+			E := ce.E
+			if ce.Alt != nil && g.chance(30, "usealt") {
+				v, E = altVals[i], ce.Alt.E
+			}
+			if strings.Contains(E, "{") && !strings.HasPrefix(E, "(") {
+				E = "(" + E + ")" // composite literals must not appear bare in statement headers
+			}
 			op := " == "
 			if g.chance(12, "neq") {
 				op = " != "
 			}
 			if g.chance(12, "yoda") && v != "nil" {
 				g.feat("yoda")
-				return v + op + ce.E
+				return v + op + E
 			}
-			e := ce.E + op + v
+			e := E + op + v
 			if g.chance(10, "parencmp") {
 				e = "(" + e + ")"
 			}
@@ -269,7 +400,7 @@ func (g *gen) chainFunc() {
 					g.feat("chain_or")
 				}
 				if i == 0 && g.chance(15, "ifinit") {
-					c = "n := 1; " + c
+					c = "n++; " + c
 					g.feat("chain_if_init")
 				}
 				sb.WriteString("if " + c + " {\n\t\t" + body() + "\n\t}")
@@ -297,9 +428,9 @@ func (g *gen) chainFunc() {
 			sb.WriteString("\t}")
 		case 5: // tagged switch
 			g.feat("chain_tagged_switch")
-			tag := ce.E
+			tag := hdr(ce.E)
 			if g.chance(25, "taginit") {
-				tag = "x := " + ce.E + "; x"
+				tag = "x := " + hdr(ce.E) + "; x"
 				g.feat("switch_init")
 			}
 			sb.WriteString("switch " + tag + " {\n")
@@ -324,9 +455,9 @@ func (g *gen) chainFunc() {
 			g.feat("chain_identical_operands")
 			op := pick(g, "sameop", " == ", " != ")
 			if ce.T.kind() == KFunc {
-				sb.WriteString("if " + ce.E + op + "nil && " + ce.E + op + "nil {\n\t\tn++\n\t}")
+				sb.WriteString("if " + hdr(ce.E+op+"nil && "+ce.E+op+"nil") + " {\n\t\tn++\n\t}")
 			} else {
-				sb.WriteString("if " + ce.E + op + ce.E + pick(g, "samejoin", " {", " || "+eq(0)+" {", " && "+eq(0)+" && "+eq(0)+" {") + "\n\t\tn++\n\t}")
+				sb.WriteString("if (" + ce.E + ")" + op + "(" + ce.E + ")" + pick(g, "samejoin", " {", " || "+eq(0)+" {", " && "+eq(0)+" && "+eq(0)+" {") + "\n\t\tn++\n\t}")
 			}
 		case 8: // negated / De Morgan material
 			g.feat("chain_negated")
@@ -375,6 +506,12 @@ func (g *gen) rangeStmt(d int) string {
 		use = pick(g, "loopbody", "continue", "break", "_ = 0", "")
 	}
 	var hdr string
+	hdrParen := func(e string) string {
+		if strings.Contains(e, "{") {
+			return "(" + e + ")"
+		}
+		return e
+	}
 	kv := func(nv int) string {
 		switch g.intn(0, 3, "rangevars") {
 		case 0:
@@ -433,11 +570,12 @@ func (g *gen) rangeStmt(d int) string {
 		g.feat("range_func")
 	case 8:
 		t := g.namedType(func(t *Ty) bool { k := t.kind(); return k == KSlice || k == KMap || k == KArray || k == KString })
-		over = g.val(t, d)
-		if k := t.kind(); k == KChan {
-			nv = 1
+		if k := t.kind(); k == KSlice || k == KMap || k == KArray || k == KString {
+			over = g.val(t, d)
+			g.feat("range_named")
+		} else {
+			over = "[]int{1}"
 		}
-		g.feat("range_named")
 	default:
 		over = "[]int{1, 2}"
 	}
@@ -445,7 +583,7 @@ func (g *gen) rangeStmt(d int) string {
 	if nv == 0 {
 		h = ""
 	}
-	hdr = "for " + h + "range " + over
+	hdr = "for " + h + "range " + hdrParen(over)
 	s := hdr + " {" + vars(h) + "\n\t\t" + use + "\n\t}"
 	if label != "" {
 		s = label + ":\n\t" + s
@@ -473,8 +611,8 @@ func (g *gen) exoticCall(d int) string {
 	case 7:
 		return "println()"
 	case 8:
-		t := g.namedType(func(t *Ty) bool { return len(t.Methods) > 0 && t.Under != nil && t.Under.K != KIface && !t.Generic })
-		if len(t.Methods) == 0 {
+		t := g.namedType(func(t *Ty) bool { return len(t.Methods) > 0 && t.Under != nil && t.Under.K != KIface && !t.Generic }, 5, 11)
+		if len(t.Methods) == 0 || t.Under == nil || t.Under.K == KIface || t.Generic {
 			return "println(1)"
 		}
 		m := t.Methods[g.intn(0, len(t.Methods)-1, "meth")]
@@ -550,7 +688,7 @@ func (g *gen) stmt(d int) string {
 		if g.chance(20, "nilyoda") {
 			c = "nil" + pick(g, "nilop2", " == ", " != ") + x
 		}
-		return "if " + c + " {\n\t\t" + pick(g, "nilbody", "", "println()", "panic(\"nil\")", "_ = 0") + "\n\t}"
+		return "if " + hdr(c) + " {\n\t\t" + pick(g, "nilbody", "", "println()", "panic(\"nil\")", "_ = 0") + "\n\t}"
 	case 6, 7:
 		return g.rangeStmt(d)
 	case 8:
@@ -563,17 +701,15 @@ func (g *gen) stmt(d int) string {
 		// type switch
 		t := g.anyType(1)
 		x := "any(" + g.val(t, d) + ")"
-		if t.kind() == KIface {
-			x = g.val(t, d)
-		}
 		bind := pick(g, "tsbind", "", "y := ")
 		use := ""
 		if bind != "" {
 			use = "\n\t\t_ = y"
 		}
-		c1 := g.ts(g.anyType(1))
+		c1t := g.anyType(1)
+		c1 := g.ts(c1t)
 		c2 := pick(g, "tscase2", "nil", "interface{ M() }", "func(int) bool", "map[string][]int", "chan<- int", "*struct{ a int }", "error", "fmt.Stringer", "[2]int")
-		if c1 == c2 {
+		if c1t.String() == c2 || c1t.String() == "[7]uint16" || c1t.String() == "any" {
 			c2 = "[]complex64"
 		}
 		g.feat("type_switch")
@@ -612,7 +748,7 @@ func (g *gen) stmt(d int) string {
 				call := f.Name + "(" + strings.Join(as, ", ") + ")"
 				if len(f.Results) == 1 && f.Results[0].nillable() {
 					g.feat("call_result_nil_cmp")
-					return "if " + call + pick(g, "nilop", " == nil", " != nil") + " {\n\t}"
+					return "if " + hdr(call+pick(g, "nilop", " == nil", " != nil")) + " {\n\t}"
 				}
 				return call
 			}
@@ -641,18 +777,19 @@ func (g *gen) stmt(d int) string {
 		// if with init and else
 		t := g.anyCmp(1)
 		g.feat("if_init")
-		return "if x := " + g.val(t, d) + "; x == " + g.val(t, d-1) + " {\n\t} else if x != " + g.val(t, 0) + " {\n\t\t_ = x\n\t} else {\n\t}"
+		return "if x := " + hdr(g.val(t, d)) + "; x == " + hdr(g.val(t, d-1)) + " {\n\t} else if x != " + hdr(g.val(t, 0)) + " {\n\t\t_ = x\n\t} else {\n\t}"
 	case 22:
 		// pointer dereference after / before a nil check (SA5011 material)
-		t := g.namedType(func(t *Ty) bool { return t.kind() == KStruct && !t.Generic && len(t.u().Fields) > 0 && !t.u().Fields[0].Embedded && t.u().Fields[0].Name != "_" })
+		t := g.namedType(func(t *Ty) bool { return t.kind() == KStruct && !t.Generic && len(t.u().Fields) > 0 && !t.u().Fields[0].Embedded && t.u().Fields[0].Name != "_" }, 0)
 		if t.kind() != KStruct || len(t.u().Fields) == 0 || t.u().Fields[0].Embedded || t.u().Fields[0].Name == "_" {
 			return g.localVar(d)
 		}
 		n := g.fresh("ptr")
 		f := t.u().Fields[0].Name
 		g.feat("deref_around_nil_check")
+		pv := g.val(ptrTo(t), d)
 		g.sc.add(n, ptrTo(t))
-		return n + " := " + g.val(ptrTo(t), d) + "\n\t" + pick(g, "derefform",
+		return n + " := " + pv + "\n\t" + pick(g, "derefform",
 			"if "+n+" == nil {\n\t\tprintln()\n\t}\n\t_ = "+n+"."+f,
 			"_ = "+n+"."+f+"\n\tif "+n+" != nil {\n\t}",
 			"if "+n+" != nil {\n\t\t_ = "+n+"."+f+"\n\t}\n\t_ = *"+n,
